@@ -100,6 +100,9 @@ pub fn run(ctx: &mut Ctx) {
         cases.push(("both-payloads", { let mut c = cose.clone(); c.inner.payload = Some(payload.clone()); c }, vk, Some(payload.clone()), aad.clone()));
         cases.push(("no-payload", { let mut c = cose.clone(); c.inner.payload = None; c }, vk, None, aad.clone()));
         cases.push(("unprotected-altered", { let mut c = cose.clone(); c.inner.unprotected.key_id = vec![1, 2, 3]; c }, vk, det_v.clone(), aad.clone()));
+        // an `alg` in the UNPROTECTED header must not influence anything: neither rescue a mismatching protected alg nor spoil a matching one
+        cases.push(("unprotected-alg-es256", { let mut c = cose.clone(); c.inner.unprotected.alg = Some(RegisteredLabelWithPrivate::Assigned(iana::Algorithm::ES256)); c }, vk, det_v.clone(), aad.clone()));
+        cases.push(("unprotected-alg-es384", { let mut c = cose.clone(); c.inner.unprotected.alg = Some(RegisteredLabelWithPrivate::Assigned(iana::Algorithm::ES384)); c }, vk, det_v.clone(), aad.clone()));
         for (name, c, key, det, ad) in cases {
             let real = verdict_sign1(c.verify::<VerifyingKey, Signature>(&key, det.as_deref(), ad.as_deref()));
             // crypto oracle on the harness's own Sig_structure
@@ -113,7 +116,7 @@ pub fn run(ctx: &mut Ctx) {
                 serde_json::json!({"case": name, "attached": att_v.is_some(), "alg": alg_tok(&alg), "msg_hex": format!("v{k}-{name}")}));
             // Spec(real): success exactly for the honest case with a matching / unregistered algorithm
             let alg_ok = !matches!(alg, Alg::Assigned(_, n) if n != -7);
-            let expect_success = name == "honest" || name == "unprotected-altered";
+            let expect_success = name == "honest" || name.starts_with("unprotected-");
             let ok = if !alg_ok { real == "failure-alg" } else if expect_success { real == "success" } else { real != "success" };
             ctx.emit.line("spec", &format!("spec:sign1:{name}"), format!("spec.eq {} true", ok), "true".into(), serde_json::json!({"case": name, "verdict": real, "alg": alg_tok(&alg)}));
         }
@@ -137,6 +140,8 @@ pub fn run(ctx: &mut Ctx) {
         { let a2 = match &aad { None => Some(vec![7]), Some(a) if a.is_empty() => Some(vec![0]), Some(a) => { let mut a = a.clone(); a[0] ^= 0x80; Some(a) } }; mcases.push(("aad-altered", mcose.clone(), mkey.clone(), det_v.clone(), a2)); }
         mcases.push(("both-payloads", { let mut c = mcose.clone(); c.inner.payload = Some(payload.clone()); c }, mkey.clone(), Some(payload.clone()), aad.clone()));
         mcases.push(("no-payload", { let mut c = mcose.clone(); c.inner.payload = None; c }, mkey.clone(), None, aad.clone()));
+        mcases.push(("unprotected-alg-hmac256", { let mut c = mcose.clone(); c.inner.unprotected.alg = Some(RegisteredLabelWithPrivate::Assigned(iana::Algorithm::HMAC_256_256)); c }, mkey.clone(), det_v.clone(), aad.clone()));
+        mcases.push(("unprotected-alg-hmac384", { let mut c = mcose.clone(); c.inner.unprotected.alg = Some(RegisteredLabelWithPrivate::Assigned(iana::Algorithm::HMAC_384_384)); c }, mkey.clone(), det_v.clone(), aad.clone()));
         let _ = verifier;
         for (name, c, key, det, ad) in mcases {
             let v = Hmac::<Sha256>::new_from_slice(&key).unwrap();
@@ -144,7 +149,7 @@ pub fn run(ctx: &mut Ctx) {
             ctx.emit.line("corr", &format!("mac0:verify:{name}"), format!("cose.verifyMac0 {} {} {} {} {} {} {}", hex_or_dash(&key), alg_tok(&malg), opt_hex(&c.inner.payload), opt_hex(&det), opt_hex(&ad),
                 hex_or_dash(&protected_of(&c)), hex_or_dash(&c.inner.tag)), real.clone(), serde_json::json!({"case": name, "msg_hex": format!("m{k}-{name}")}));
             let alg_ok = !matches!(malg, Alg::Assigned(_, n) if n != 5);
-            let ok = if !alg_ok { real == "failure-alg" } else if name == "honest" { real == "success" } else { real != "success" };
+            let ok = if !alg_ok { real == "failure-alg" } else if name == "honest" || name.starts_with("unprotected-") { real == "success" } else { real != "success" };
             ctx.emit.line("spec", &format!("spec:mac0:{name}"), format!("spec.eq {} true", ok), "true".into(), serde_json::json!({"case": name, "verdict": real}));
         }
     }
